@@ -1,3 +1,8 @@
 import PttVerif.Common
 import PttVerif.DriverLoop
 import PttVerif.Props.C13
+import PttVerif.Props.C18
+import PttVerif.Props.C01
+import PttVerif.Props.C14
+import PttVerif.Props.C20
+import PttVerif.Props.C02
